@@ -1115,8 +1115,11 @@ func (e *Eng) indexVal(base, idx Val, c *ctx, n ast.Node, commaOk bool) Val {
 		if idx.K == KSlice {
 			kt = idx.Ref
 		}
-		k := map[string]Kind{"Bool": KBool, "Str": KStr, "Int": KInt}[base.GVal]
+		k := map[string]Kind{"Bool": KBool, "Str": KStr, "Int": KInt, "(_ BitVec 8)": KInt}[base.GVal]
 		var gt types.Type
+		if base.GVal == "(_ BitVec 8)" {
+			return Val{K: KInt, T: "(select " + base.T + " " + kt + ")", GoT: types.Typ[types.Uint8]}
+		}
 		switch k {
 		case KBool:
 			gt = types.Typ[types.Bool]
